@@ -123,6 +123,8 @@ def jobs(tier):
 
 
 def run_job(job):
+    if job.get("codec") == "datarows":
+        return run_datarows(job)
     if job.get("codec"):
         return run_codec(job)
     return run_explore(DRIVER, job)
@@ -258,8 +260,62 @@ def run_codec(job):
             "sample": {"codec": part, "hash_shape": repr(HASHES[job.get("i", 0)])}}
 
 
-def codec_jobs():
-    return [{"codec": "fields", "i": i} for i in range(len(HASHES))] + [{"codec": "legacy"}]
+def run_datarows(job):
+    """the per-tag data rows (event cursor, walk marker) behave like one value per tag, also when two states share a store:
+    every sequence of get / update(v) / delete_tag / forget by either state up to the depth, against a dict"""
+    from ..world import DictStorage
+    depth = job["depth"]
+    ops = [(i, k, v) for i in (0, 1) for (k, v) in (("get", None), ("update", b"v1"), ("update", b"v2"), ("delete", None),
+                                                      ("forget", None))]
+    vs = {}
+    n = 0
+    for first in [ops[job["first"]]]:
+        for rest in itertools.product(ops, repeat=depth - 1):
+            seq = (first,) + rest
+            n += 1
+            env.install(env.Clock(), env.Counters())
+            sto = DictStorage()
+            l, r = MockProvider(False, True), MockProvider(False, True)
+            sts = [SyncState((l, r), sto, "T"), SyncState((l, r), sto, "T")]
+            model = None
+            for step, (i, k, v) in enumerate(seq):
+                st = sts[i]
+                try:
+                    if k == "get":
+                        got = st.storage_get_data("cur")
+                        if got != model:
+                            vs.setdefault(("datarow-get", "differs"), {"seq": [list(map(repr, x)) for x in seq[:step + 1]],
+                                                                       "got": repr(got), "want": repr(model)})
+                            break
+                    elif k == "update":
+                        st.storage_update_data("cur", v)
+                        model = v
+                    elif k == "delete":
+                        st.storage_delete_tag("cur")
+                        model = None
+                    elif k == "forget":
+                        st.forget()             # forgets the entries of tag T; data rows live under their own tags
+                except Exception as e:
+                    vs.setdefault(("datarow-raises", "%s:%s" % (k, type(e).__name__)),
+                                  {"seq": [list(map(repr, x)) for x in seq[:step + 1]], "error": repr(e)[:200]})
+                    break
+            else:
+                rows = sto.read_all("cur")
+                if len(rows) > 1 or (list(rows.values()) or [None])[0] != model:
+                    vs.setdefault(("datarow-final", "differs"), {"seq": [list(map(repr, x)) for x in seq], "rows": repr(rows),
+                                                                 "want": repr(model)})
+    viols = []
+    for kk, d in vs.items():
+        v = viol(kk[0], kk[1], d)
+        v["hist"] = d["seq"]
+        viols.append(v)
+    return {"states": n * depth, "transitions": n * depth, "evaluations": n, "traces": n, "nontrivial": n, "terminals": 0,
+            "capped": False, "violations": viols, "outcomes": [], "sample": {"datarows": "depth %d" % depth}}
+
+
+def codec_jobs(tier="quick"):
+    return [{"codec": "fields", "i": i} for i in range(len(HASHES))] + [{"codec": "legacy"}] + \
+        [{"codec": "datarows", "first": i, "depth": 5 if tier == "quick" else 6} for i in range(10)]
 
 
 def main(tier):
@@ -272,7 +328,7 @@ def main(tier):
                         technique="explicit-state model checking of the implementation with a persistence monitor + bounded "
                                   "exhaustive codec enumeration")
     rep.add_results(report.pmap(__name__, jobs(tier), progress=500), part="engine-monitor")
-    rep.add_results(report.pmap(__name__, codec_jobs()), part="codec")
+    rep.add_results(report.pmap(__name__, codec_jobs(tier)), part="codec")
     return rep.finish()
 
 
